@@ -117,8 +117,12 @@ structure AduP (K V W : Type) where
   m : Nat
   L : Nat → V → W
   Ladj : Nat → W → V
-  /-- `g[j].convex_conj.proximal(stepsize * inner_stepsizes[j])` (scalar or pointwise step) -/
+  /-- `proxs[j]`: the proximal HOISTED out of the loop by `adupdates`
+  (`func.convex_conj.proximal(stepsize * inner_ss)` computed once before the iteration) -/
   prox : Nat → W → W
+  /-- the proximal that `adupdates_simple` builds from the factory IN EVERY inner iteration
+  (`g[j].convex_conj.proximal(stepsize * inner_stepsizes[j])`) -/
+  proxSimple : Nat → W → W
   stepsize : K
   inner : Nat → InnerSS K W
   /-- entry-wise product in the range (`array * element`) -/
@@ -152,11 +156,13 @@ def AduP.scaled (P : AduP K V W) (j : Nat) (w : W) : W :=
   | .pointwise a => P.mulW (P.stepsize • a) w
 
 def AduP.innerOpt (P : AduP K V W) (j : Nat) (s : AduOpt V W) : AduOpt V W :=
-  let arg := s.duals j + P.scaled j (P.L j s.x)                  -- duals[j] + step * L[j](x)
-  let t := P.prox j arg                                          -- proxs[j](arg, out=tmp_ran)
-  let x' := s.x - ((1 : K) / P.stepsize) • P.Ladj j (t - s.duals j)
-  let duals' := upd s.duals j t                                  -- duals[j].assign(tmp_ran)
-  ⟨x', duals', upd s.tmp (P.rid j) t, if P.cbInner then s.log ++ [x'] else s.log⟩
+  let arg := s.duals j + P.scaled j (P.L j s.x)                  -- arg = duals[j] + step * L[j](x)
+  -- tmp_ran = tmp_rans[L[j].range]; proxs[j](arg, out=tmp_ran): the result lives in the SHARED buffer
+  let tmp' := upd s.tmp (P.rid j) (P.prox j arg)
+  -- x -= 1.0 / stepsize * L[j].adjoint(tmp_ran - duals[j])       (reads the buffer)
+  let x' := s.x - ((1 : K) / P.stepsize) • P.Ladj j (tmp' (P.rid j) - s.duals j)
+  let duals' := upd s.duals j (tmp' (P.rid j))                   -- duals[j].assign(tmp_ran)  (reads the buffer)
+  ⟨x', duals', tmp', if P.cbInner then s.log ++ [x'] else s.log⟩
 
 def AduP.stepOpt (P : AduP K V W) (s : AduOpt V W) : AduOpt V W :=
   let s1 : AduOpt V W := { s with x := P.primal s.duals s.x }
@@ -166,7 +172,7 @@ def AduP.stepOpt (P : AduP K V W) (s : AduOpt V W) : AduOpt V W :=
 def AduP.innerSimple (P : AduP K V W) (j : Nat) (s : AduSimple V W) : AduSimple V W :=
   -- dual_tmp = prox(duals[j] + stepsize * inner_stepsizes[j] * L[j](x))   (scalar branch)
   --            prox(duals[j] + stepsize * np.asarray(inner_stepsizes[j]) * L[j](x))   (otherwise)
-  let t := P.prox j (s.duals j + P.scaled j (P.L j s.x))
+  let t := P.proxSimple j (s.duals j + P.scaled j (P.L j s.x))   -- dual_tmp: a fresh element
   let x' := s.x - ((1 : K) / P.stepsize) • P.Ladj j (t - s.duals j)
   ⟨x', upd s.duals j t⟩
 
@@ -650,6 +656,8 @@ structure DrP (K V W : Type) where
   tau : K
   sigma : Nat → K
   lam : K
+  /-- `l[i].convex_conj.proximal(sigma[i])` when `l` is given (`none`: `l = None`, the step is omitted) -/
+  proxLc : Option (Nat → W → W) := none
 
 structure DrS (V W : Type) where
   x : V
@@ -688,6 +696,9 @@ def DrP.step (P : DrP K V W) (zeroV : V) (s : DrS V W) : DrS V W :=
   -- z2i = w2[i] + sigma[i]/2 * L[i](p1); v[i] += lam (z2i - p2[i])  (two lincombs)
   let v' : Nat → W := fun i =>
     let z2 := lincomb 1 (w2 i) (P.sigma i / 2) (P.L i r1)
+    let z2 := match P.proxLc with                    -- if l is not None: prox_cc_l[i](sigma[i])(z2i, out=z2i)
+      | some pl => pl i z2
+      | none => z2
     lincomb 1 (lincomb 1 (s.v i) P.lam z2) (-P.lam) (p2 i)
   ⟨x', v', p1, s.log ++ [p1]⟩
 
@@ -719,6 +730,8 @@ structure FbpdP (K V W : Type) where
   proxGc : Nat → W → W
   tau : K
   sigma : Nat → K
+  /-- `l[i].convex_conj.gradient` when `l` is given (`none`: `l = None`, the gradient step is omitted) -/
+  gradLc : Option (Nat → W → W) := none
 
 structure FbpdS (V W : Type) where
   x : V
@@ -729,7 +742,7 @@ structure FbpdS (V W : Type) where
 after the in-place proximal step `x_old` is the NEW iterate (DESIGN §8, F12). -/
 def fbpdXOldAliased : Bool := true
 
-variable [OfNat K 1] [OfNat K 2] [Neg K] [SMul K V] [SMul K W] [Add V] [Sub V] [Add W]
+variable [OfNat K 1] [OfNat K 2] [Neg K] [SMul K V] [SMul K W] [Add V] [Sub V] [Add W] [Sub W]
 
 def FbpdP.step (P : FbpdP K V W) (aliased : Bool) (s : FbpdS V W) : FbpdS V W :=
   -- tmp_1 = grad_h(x) + sum(Li.adjoint(vi) for Li, vi in zip(L, v))
@@ -737,10 +750,48 @@ def FbpdP.step (P : FbpdP K V W) (aliased : Bool) (s : FbpdS V W) : FbpdS V W :=
   let x' := P.proxF (s.x - P.tau • tmp1)                 -- prox_f(tau)(x - tau * tmp_1, out=x)
   let xOld := if aliased then x' else s.x                -- x_old = x   (alias!)
   let y := lincomb 2 x' (-(1 : K)) xOld                        -- y.lincomb(2.0, x, -1, x_old)
-  -- prox_cc_g[i](sigma[i])(v[i] + sigma[i] * L[i](y), out=v[i])
-  let v' : Nat → W := fun i => P.proxGc i (s.v i + P.sigma i • P.L i y)
+  -- tmp_2 = sigma[i] * (L[i](y) - grad_cc_l[i](v[i]))  if l is not None else  sigma[i] * L[i](y)
+  -- prox_cc_g[i](sigma[i])(v[i] + tmp_2, out=v[i])
+  let v' : Nat → W := fun i =>
+    let tmp2 := match P.gradLc with
+      | some gl => P.sigma i • (P.L i y - gl i (s.v i))
+      | none => P.sigma i • P.L i y
+    P.proxGc i (s.v i + tmp2)
   ⟨x', v', y⟩
 
 end FBPD
+
+/-! ## Default step-size rules (`pdhg_stepsize`, `douglas_rachford_pd_stepsize`, `landweber(omega=None)`) -/
+section Stepsize
+variable {K : Type} [OfNat K 0] [OfNat K 1] [OfNat K 2] [OfNat K 9] [OfNat K 10] [Add K] [Mul K] [Div K]
+
+/-- `pdhg_stepsize(L, tau, sigma)` with `L_norm = L.norm(estimate=True)` (or the float given). -/
+def pdhgStepsize (sqrt : K → K) (Lnorm : K) (tau sigma : Option K) : K × K :=
+  match tau, sigma with
+  | some t, some s => (t, s)                                   -- returned as-is
+  | none, none => let t := sqrt (9 / 10) / Lnorm; (t, t)       -- tau = sigma = sqrt(0.9) / L_norm
+  | none, some s => (9 / 10 / (s * (Lnorm * Lnorm)), s)        -- tau = 0.9 / (sigma * L_norm ** 2)
+  | some t, none => (t, 9 / 10 / (t * (Lnorm * Lnorm)))        -- sigma = 0.9 / (tau * L_norm ** 2)
+
+def sumK (l : List K) : K := l.foldl (· + ·) 0                 -- Python `sum(...)`
+
+def natK : Nat → K                                             -- `len(L_norms)` as a scalar
+  | 0 => 0
+  | n + 1 => natK n + 1
+
+/-- `douglas_rachford_pd_stepsize(L, tau, sigma)` on the list of operator norms. -/
+def drStepsize (norms : List K) (tau : Option K) (sigma : Option (List K)) : K × List K :=
+  let sig (t : K) := norms.map (fun n => 2 / (natK norms.length * t * (n * n)))
+  match tau, sigma with
+  | none, none => let t := 1 / sumK norms; (t, sig t)          -- tau = 1 / sum(L_norms)
+  | none, some s =>                                            -- tau = 2 / sum(si * Li_norm ** 2)
+      (2 / sumK (List.zipWith (fun si n => si * (n * n)) s norms), s)
+  | some t, none => (t, sig t)
+  | some t, some s => (t, s)
+
+/-- `landweber`: `omega = 1 / op.norm(estimate=True) ** 2` when `omega is None`. -/
+def landweberDefaultOmega (est : K) : K := 1 / (est * est)
+
+end Stepsize
 
 end OdlModel.Solvers
